@@ -2,7 +2,8 @@
     [op_spec] is the boolean checker [shard_ok], not a comparison with one
     expected output. *)
 From Coq Require Import ZArith List Bool String.
-From Low Require Import Lib.Bits Lib.BitSeq Lib.Lex Lib.Bytes Lib.Val Model.Sigbits Spec.SigbitsSpec Spec.ShardRouteSpec.
+From Low Require Import Lib.Bits Lib.BitSeq Lib.Lex Lib.Bytes Lib.Val Model.Sigbits Spec.SigbitsSpec Spec.ShardRouteSpec
+  Spec.ShardSplitSpec.
 Import ListNotations.
 Open Scope string_scope.
 Open Scope Z_scope.
@@ -10,13 +11,23 @@ Open Scope Z_scope.
 Definition c17_dom (keys : list (list Z)) (maxSize : Z) : bool :=
   keys_okb keys && strict_ascb keys && negb (zlen keys =? 0) && (1 <=? maxSize).
 
+(** What the model returns.  The faithful model's sFirstDiffBit walks the keys chunk by chunk with
+    [skipn] from the start (quadratic in the length of a shared prefix: ~30 s for two keys sharing
+    64 KiB), so for key sets with a key longer than 9000 bytes the run evaluates
+    [spec_ShardByPrefix] instead -- which IS the model's output on the domain [c17_dom]
+    (theorem C17_exact: ShardByPrefix keys ms = Some (spec_ShardByPrefix keys ms)).  All other
+    cases execute the model itself. *)
+Definition c17_run (keys : list (list Z)) (maxSize : Z) : option (list Z * list Z) :=
+  if forallb (fun k => zlen k <=? 9000) keys then ShardByPrefix keys maxSize
+  else Some (spec_ShardByPrefix keys maxSize).
+
 Definition ops_C17 : list opdef := [
   {| op_name := "sigbits.ShardByPrefix";
      op_run := fun a => match a with
        | [keys; ms] => match as_zss keys, as_z ms with
            | Some keys, Some ms =>
                if c17_dom keys ms then
-                 match ShardByPrefix keys ms with
+                 match c17_run keys ms with
                  | Some (L, B) => VL [vzs L; vzs B]
                  | None => VPanic
                  end
@@ -40,7 +51,7 @@ Definition ops_C17 : list opdef := [
        | [keys; ms] => match as_zss keys, as_z ms with
            | Some keys, Some ms =>
                if c17_dom keys ms then
-                 match ShardByPrefix keys ms with
+                 match c17_run keys ms with
                  | Some (L, B) => VL [vzs L; vzs B; vzs (map (route (shard_prefixes keys L B)) keys)]
                  | None => VPanic
                  end
